@@ -42,6 +42,14 @@ def named_args(name, dim, seed, lo, hi):
         ev = np.exp(r.uniform(0, math.log(20.0), d))  # condition number <= 20
         cov = (q * ev) @ q.T
         cov = (cov + cov.T) / 2 * float(s[0])
+        if r.uniform() < 0.5:
+            # variances of very different magnitude side by side (sd in sqrt(lo)..sqrt(hi) per dimension):
+            # Sigma = D C D with C the correlation matrix of the well-conditioned draw above
+            sd0 = np.sqrt(np.diag(cov))
+            corr = cov / np.outer(sd0, sd0)
+            sd = np.sqrt(_loguniform(r, lo, hi, d))
+            cov = corr * np.outer(sd, sd)
+            cov = (cov + cov.T) / 2
         a = {"loc": (r.normal(size=d) * 2).tolist(), "covariance": cov.tolist()}
     if name == "MixShiftedLogNormal":
         k = 3
